@@ -68,8 +68,7 @@ func main() {
 	_, _, _, _ = keepP, keepS, keepM, keepA
 	uvs.Keep()
 	t := reflect.TypeOf(greeter{41})
-	println("M", "main", "refl", reflect.PointerTo(t).String(), reflect.SliceOf(t).String(),
-		reflect.MapOf(reflect.TypeOf(""), t).String(), reflect.ArrayOf(3, t).String())
+	println("M", "main", "refl", reflect.PointerTo(t).String(), reflect.SliceOf(t).String(), reflect.ArrayOf(3, t).String())
 	p1.Marks()
 }
 '''
